@@ -58,8 +58,8 @@ fn backtick_spans(msg: &str) -> Vec<String> {
 
 fn bad_arg_for(lang: Lang, r: &mut Rng) -> Option<String> {
     Some(match lang {
-        Lang::CountU32 | Lang::CountU64 | Lang::PlainU32 | Lang::Size | Lang::TimeMin | Lang::TimeDay => r.pick(&["x", "@5", "q9", "k", "#", "abc", "_1"]).to_string(),
-        Lang::Types => r.pick(&["q", "x", "z", "Q"]).to_string(),
+        Lang::CountU32 | Lang::CountU64 | Lang::PlainU32 | Lang::Size | Lang::TimeMin | Lang::TimeDay => r.pick(&["x", "@5", "q9", "k", "#", "abc", "_1", "x'", "q\"", "x'y", "`x", "{}", "x%", "\u{e9}5", "x\\"]).to_string(),
+        Lang::Types => r.pick(&["q", "x", "z", "Q", "q'", "x\"z"]).to_string(),
         Lang::Perm => r.pick(&["q", "x+r", "9", "zz", "@"]).to_string(),
         Lang::Format | Lang::WordFormat => r.pick(&["%q", "%!", "%j", "%", "%Q"]).to_string(),
         _ => return None,
